@@ -365,7 +365,12 @@ func verif_C04_segmentation() {
 		cut1 := nondetInt(1, len(in)-1)
 		cuts := []int{cut1}
 		if verifBound(0, 1) == 1 {
-			cut2 := nondetInt(cut1, len(in)-1)
+			// a second cut up to 16 octets further on
+			hi := cut1 + 16
+			if hi > len(in)-1 {
+				hi = len(in) - 1
+			}
+			cut2 := nondetInt(cut1, hi)
 			cuts = append(cuts, cut2)
 		}
 		got = run(0, cuts)
